@@ -277,8 +277,6 @@ def run_side(desc, side, seed, track=True):
         for special in ("where", "out"):
             if special in kwd:
                 m, n = build(kwd[special], rng)
-                if special == "where" and isinstance(m, Tensor):
-                    m = m.data
                 objs["_" + special] = (m, n)
     kw = _resolve_kwargs(kwd, rng, side, objs)
     try:
@@ -563,6 +561,14 @@ def gen_ufunc(rng, name, nin, n):
             sc = od(rng.choice(["pyint", "pyfloat", "pybool"]))
             t = r_operand(rng, sa, rng.choice(["f64", "f32", "i64", "i32"]), ("tensor",))
             ops = [sc, t] if rng.random() < 0.6 else [t, sc]
+        if route == "op" and name == "power" and rng.random() < 0.5:
+            # Tensor.__pow__ / __rpow__ dispatch on the *value* of the exponent (1 and 2): exponents of every kind and
+            # of one element in 0, 1 or 2 dimensions, whose shape and dtype must still take part in the result
+            ek = rng.choice(["array", "array", "tensor", "npscalar", "list"])
+            ops = [r_operand(rng, rng.choice([(), (3,), (2, 3)]), rng.choice(["f64", "f32", "f16", "i32"]), ("tensor",)),
+                   od(ek, rng.choice(["f64", "f32", "i64", "i32"]),
+                      rng.choice(([()] if ek != "list" else []) + [(1,), (1, 1), (1, 1, 1)]),  # (a 0-d "list" is a Python scalar)
+                      fill=rng.choice([1, 2, 2, 3]))]
         kw = {}
         if route != "op" and name != "matmul":
             r = rng.random()
@@ -570,12 +576,22 @@ def gen_ufunc(rng, name, nin, n):
             if r < 0.2:
                 kw["dtype"] = rng.choice(["f32", "f64", "f16"])
             elif r < 0.4:
-                kw["where"] = od("array", "bool", res_shape)
+                kw["where"] = od(rng.choice(["array", "array", "tensor"]), "bool", res_shape)
                 if rng.random() < 0.6:
-                    kw["out"] = od("array", rng.choice(["f32", "f64"]), res_shape)
+                    kw["out"] = od(rng.choice(["array", "array", "tensor"]), rng.choice(["f32", "f64"]), res_shape)
             elif r < 0.55:
                 kw["out"] = od(rng.choice(["array", "tensor", "tview"]), rng.choice(["f32", "f64"]), res_shape,
                                const=rng.choice([None, True]))
+            elif r < 0.8:
+                # the options together: dtype= with a where= mask and/or an out= target (each option's code path also
+                # has to honour the others)
+                kw["dtype"] = rng.choice(["f32", "f64", "f16"])
+                both = rng.random()
+                if both < 0.7:
+                    kw["where"] = od(rng.choice(["array", "array", "tensor"]), "bool", rng.choice([res_shape, res_shape[-1:]]) if res_shape else ())
+                if both > 0.4:
+                    kw["out"] = od(rng.choice(["array", "tensor"]), rng.choice(["f32", "f64"]), res_shape,
+                                   const=rng.choice([None, True]))
         out.append({"cat": "ufunc", "name": name, "route": route, "operands": ops, "kwargs": kw, "track": "both"})
     return out
 
@@ -1071,7 +1087,38 @@ def weak_scalar_attribution(desc, cls, seed):
     return None
 
 
+def pow_special_attribution(desc, cls, seed):
+    """`tensor ** e` with `e` a Python/NumPy scalar or 0-d ndarray equal to 1 or 2 is routed by Tensor.__pow__ to
+    Positive / Square, which never see the exponent (the repository's tests pin that routing).  The failure belongs to
+    this family iff the exponent is of that kind *and* the same call through the function route (`mg.power`, no special
+    casing) agrees with NumPy."""
+    import copy
+    from numbers import Number
+
+    if not (desc["cat"] == "ufunc" and desc["name"] == "power" and desc["route"] == "op" and len(desc["operands"]) == 2):
+        return None
+    if desc["operands"][0]["k"] not in ("tensor", "tview"):
+        return None
+    try:
+        rng = random.Random(_case_seed(desc, seed))
+        objs = [build(o, rng) for o in desc["operands"]]
+        e = objs[1][0]
+        if not (isinstance(e, Number) or (isinstance(e, np.ndarray) and e.ndim == 0)):
+            return None
+        if not (e == 1 or e == 2):
+            return None
+        d2 = copy.deepcopy(desc)
+        d2["route"] = "func"
+        if run_case(d2, seed)["fail"] is None:
+            return "pow-special-case"
+    except Exception:  # noqa: BLE001
+        return None
+    return None
+
+
 def signature(desc, cls, attributed=None, untracked_only=False):
+    if attributed == "pow-special-case":
+        return f"C03|{cls}|pow-special-case|route=op"
     if attributed:
         n = len(desc["operands"])
         # the family is per category of entry point: differentiable ufuncs and the other op categories cast Python
@@ -1092,8 +1139,12 @@ def signature(desc, cls, attributed=None, untracked_only=False):
 
 
 def coarse_key(desc, cls):
+    extra = ()
+    if desc["name"] == "power" and desc["route"] == "op":
+        # Tensor.__pow__ treats 0-d exponents specially (a recorded finding): keep them apart from the others
+        extra = tuple((len(o["shape"]) == 0, o.get("fill")) for o in desc["operands"])
     return (cls, desc["cat"], desc["name"], desc["route"], tuple(o_short(o) for o in desc["operands"]),
-            tuple(sorted(desc.get("kwargs", {}))))
+            tuple(sorted(desc.get("kwargs", {}))), extra)
 
 
 # ============================================================================================== run
@@ -1291,9 +1342,11 @@ def run(ctx: Ctx) -> Outcome:
     seen = {}
     attr_memo = {}
     for (d0, cls, detail), d in zip(groups.values(), shrunk):
+        if pow_special_attribution(d, cls, ctx.seed) and not pow_special_attribution(d0, cls, ctx.seed):
+            d = d0  # shrinking walked into the recorded 0-d family: report the case as it was found
         hk = (cls, stable_hash(d))
         if hk not in attr_memo:
-            attr_memo[hk] = weak_scalar_attribution(d, cls, ctx.seed)
+            attr_memo[hk] = pow_special_attribution(d, cls, ctx.seed) or weak_scalar_attribution(d, cls, ctx.seed)
         r = run_case(d, ctx.seed)
         sig = signature(d, cls, attr_memo[hk], untracked_only=(d.get("track") == "both" and r.get("track_failed") is False))
         if sig in seen:
